@@ -2,6 +2,7 @@ import Driver.Common
 import Rpki.Model.Prefix
 import Rpki.Model.AsnSet
 import Rpki.Model.PfxText
+import Rpki.Model.JsonRead
 namespace Driver.C13
 open Driver Rpki.Prefix Rpki.AsnSet Rpki.Consts
 
@@ -100,6 +101,22 @@ def handle (toks : List String) (impl : String) : Verdict :=
       { model := some (showOpt toString m.ml),
         oracle := if impl = showOpt toString m.ml ∧ ok then none else some "saturating_new result not a valid max-len" }
     | _, _ => badOp "args"
+  | ["aserde", n] =>
+    match n.toNat? with
+    | some n =>
+      let d := Rpki.ResText.decimal n
+      Verdict.ofModel s!"u={hexBytes d} b={hexBytes (34 :: d ++ [34])} s={hexBytes (34 :: Rpki.PfxText.fmtAsn n ++ [34])} back=true"
+    | none => badOp "n"
+  | ["aany", hx] =>
+    match parseHex hx with
+    | some bs =>
+      let b := bs.map (·.toNat)
+      let sh : Option Nat → String := fun o => match o with | some n => toString n | none => "err"
+      let j := Rpki.JsonRead.readText b
+      let u : Option Nat := match j with | some (.num n) => if n < 4294967296 then some n else none | _ => none
+      let st : Option Nat := match j with | some (.str t) => Rpki.ResText.parseAsn t | _ => none
+      Verdict.ofModel s!"u32={sh u} str={sh st} any={sh (match j with | some (.num _) => u | _ => st)}"
+    | none => badOp "hex"
   | ["ptext", hx] =>
     match parseHex hx with
     | some bs =>
